@@ -425,3 +425,9 @@ package app
 //@ func NewShutterApp
 //@   ensures ret0 != nil && fresh(ret0) && appInv(ret0) && len(ret0.Configs) == 1 && len(ret0.Configs[0].Keypers) == 0 && ret0.EONCounter == 0
 //@   ensures ret0.CheckTxState != nil && ret0.CheckTxState.TxCounts != nil && ntInv(ret0.CheckTxState.NonceTracker)
+//@
+//@ // C11: votes are pooled only for IDENTICAL configs - the equality the config voting uses implies agreement of
+//@ // threshold, config index, activation block and keyper list
+//@ pred sameConfig(a, b) := a.Threshold == b.Threshold && a.KeyperConfigIndex == b.KeyperConfigIndex && a.ActivationBlockNumber == b.ActivationBlockNumber && len(a.Keypers) == len(b.Keypers) && (forall i :: 0 <= i && i < len(a.Keypers) ==> a.Keypers[i] == b.Keypers[i])
+//@ func (ReflectDeepEquals).Equals
+//@   ensures ret0 ==> sameConfig(a, b)
